@@ -486,6 +486,9 @@ func (ev *Eval) convert(to *wgen.Type, from *wgen.Type, a Sc, implicit bool) Sc 
 		if a.Tol > 0 || badF32(x) {
 			out.Ind = true
 		}
+		if (a.Ind || a.Tol > 0 || badF32(x)) && (to.Kind == wgen.KI32 || to.Kind == wgen.KU32) {
+			ev.cov("ind.f2i") // the converted value is not WGSL-defined: a target-level f2i trap on it is not a finding
+		}
 		switch to.Kind {
 		case wgen.KBool:
 			out.B = b2u(x != 0)
